@@ -112,12 +112,12 @@ static int do_growth(void) {
 static int do_sersize(void) {
   u64 nser = 0, nbuild = 0;
   static unsigned char payload[70000];
-  static const u64 LS8[] = {0, 1, 23, 24, 100, 200, 230, 250, 252, 253, 254, 255};
+  static const u64 LS8[] = {0, 1, 23, 24, 84, 100, 126, 127, 128, 130, 150, 170, 200, 230, 250, 252, 253, 254, 255};
   u64 n = 0;
   u64 lens[64];
   unsigned nl = 0;
   if (MAXV == 255) for (unsigned i = 0; i < sizeof LS8 / sizeof LS8[0]; i++) lens[nl++] = LS8[i];
-  else { static const u64 LS16[] = {0, 23, 24, 255, 256, 30000, 65000, 65530, 65531, 65532, 65533, 65534, 65535}; for (unsigned i = 0; i < sizeof LS16 / sizeof LS16[0]; i++) lens[nl++] = LS16[i]; }
+  else { static const u64 LS16[] = {0, 23, 24, 255, 256, 21845, 30000, 32766, 33000, 40000, 43690, 65000, 65530, 65531, 65532, 65533, 65534, 65535}; for (unsigned i = 0; i < sizeof LS16 / sizeof LS16[0]; i++) lens[nl++] = LS16[i]; }
   /* single definite strings of every length (w=8) / boundary lengths (w=16) */
   for (u64 l = 0; l <= MAXV; l += (MAXV == 255 ? 1 : 257)) {
     for (int text = 0; text < 2; text++) {
@@ -157,7 +157,7 @@ static int do_sersize(void) {
   for (unsigned i = 0; i < nl; i++)
     for (unsigned j = 0; j < nl; j++)
       for (unsigned k = 0; k < nl; k++)
-        for (int shape = 0; shape < 6; shape++) {
+        for (int shape = 0; shape < 8; shape++) {
           u64 L3[3] = {lens[i], lens[j], lens[k]};
           cbor_item_t* it[3];
           u64 sum = 0;
@@ -170,6 +170,8 @@ static int do_sersize(void) {
             case 2: c = cbor_new_indefinite_bytestring(); for (int q = 0; q < 3; q++) (void)cbor_bytestring_add_chunk(c, it[q]); want = 2 + sum; break;
             case 3: c = cbor_new_indefinite_map(); (void)cbor_map_add(c, (struct cbor_pair){.key = it[0], .value = it[1]}); want = 2 + sum - (hdr(L3[2]) + L3[2]); break;
             case 4: c = cbor_new_definite_map(1); (void)cbor_map_add(c, (struct cbor_pair){.key = it[1], .value = it[2]}); want = 1 + sum - (hdr(L3[0]) + L3[0]); break;
+            case 6: c = cbor_new_definite_array(3); for (int q = 0; q < 3; q++) (void)cbor_array_push(c, it[0]); want = 1 + 3 * (hdr(L3[0]) + L3[0]); break; /* one item in three adjacent slots */
+            case 7: c = cbor_new_indefinite_array(); for (int q = 0; q < 4; q++) (void)cbor_array_push(c, it[1]); want = 2 + 4 * (hdr(L3[1]) + L3[1]); break; /* ... in four */
             default: { cbor_item_t* a = cbor_new_definite_array(2); (void)cbor_array_push(a, it[0]); (void)cbor_array_push(a, it[2]); c = cbor_build_tag(MAXV, a); cbor_decref(&a); want = hdr(MAXV) + 1 + sum - (hdr(L3[1]) + L3[1]); }
           }
           u64 got = c ? cbor_serialized_size(c) : 0;
